@@ -36,8 +36,26 @@ def _init(pid, repo):
 def _work(cfg):
     from vlib.core import Result
     t0 = time.time()
+    import signal
+
+    class _Budget(Exception):
+        pass
+
+    def _alarm(signum, frame):
+        raise _Budget()
+    budget = int(os.environ.get('VERIF_CONFIG_BUDGET_S', '900'))
+    try:
+        signal.signal(signal.SIGALRM, _alarm)
+        signal.alarm(budget)
+    except Exception:
+        pass
     try:
         r = _H.run_config(cfg)
+        d = r.to_dict()
+    except _Budget:
+        r = Result(cfg)
+        r.status = 'inconclusive'
+        r.notes.append('per-configuration time budget of %d s exhausted' % budget)
         d = r.to_dict()
     except BaseException as e:  # noqa  (a worker must always answer)
         if isinstance(e, (KeyboardInterrupt, SystemExit)):
@@ -46,6 +64,11 @@ def _work(cfg):
         r.status = 'error'
         r.trace = traceback.format_exc()[-3000:]
         d = r.to_dict()
+    finally:
+        try:
+            signal.alarm(0)
+        except Exception:
+            pass
     d['wall_s'] = round(time.time() - t0, 3)
     return d
 
